@@ -125,3 +125,49 @@ def adversarial_rng(torch, mode):
         yield
     finally:
         torch.rand, torch.rand_like, torch.bernoulli, torch.Tensor.uniform_, torch.Tensor.bernoulli_ = o_rand, o_rand_like, o_bern, o_uniform, o_tbern
+
+
+def layout_variants(torch, x):
+    """the same VALUES in different memory layouts: [(name, tensor)] - non-contiguous (transposed storage), sliced out of a larger buffer with a step,
+    expanded (stride 0) when the batch rows are equal, channels_last for 4-d, a storage offset.  torch.equal(v, x) holds for every variant."""
+    out = []
+    if x.ndim >= 2:
+        out.append(('transposed-storage', x.transpose(0, -1).contiguous().transpose(0, -1)))
+        big = torch.empty(*x.shape[:-1], 2 * x.shape[-1] + 1, dtype=x.dtype)
+        big.fill_(float('nan') if x.dtype.is_floating_point else 0)
+        big[..., 1::2] = x
+        out.append(('strided-slice-of-nan-buffer', big[..., 1::2]))
+    flat = torch.empty(x.numel() + 3, dtype=x.dtype)
+    flat[3:] = x.reshape(-1)
+    out.append(('storage-offset', flat[3:].view(x.shape)))
+    if x.ndim == 4:
+        out.append(('channels-last', x.contiguous(memory_format=torch.channels_last)))
+    if x.shape[0] > 1 and bool((x[:1] == x).all()):
+        out.append(('expanded-batch', x[:1].expand(*x.shape)))
+    return out
+
+
+def frozen_surgery(torch, mod, mk):
+    """Iterator over the stages of a "frozen module" history; the caller runs its own check at every stage on the SAME long-lived module.
+    eval + requires_grad_(False) on every parameter (a frozen tokenizer) -> a different checkpoint loaded into the frozen, used module -> an
+    in-place write into its parameters -> parameters unfrozen again, training mode.  Anything memoised while "nothing can change" must follow."""
+    mod.eval()
+    mod.requires_grad_(False)
+    yield 'frozen'
+    yield 'frozen-second-call'
+    other = mk()
+    try:
+        mod.load_state_dict(other.state_dict())
+        yield 'frozen+other-checkpoint'
+    except Exception:
+        pass
+    with torch.no_grad():
+        for p in mod.parameters():
+            if p.dtype.is_floating_point:
+                p.mul_(1.25).add_(0.01)
+    yield 'frozen+parameter-write'
+    mod.requires_grad_(True)
+    mod.train()
+    yield 'unfrozen-train'
+    mod.eval()
+    yield 'unfrozen-eval'
